@@ -24,20 +24,25 @@ wire cut into arbitrary reads -> server decoder (and server -> client) for
 protocol 1, 2 and 3; args, body, readv offsets, streamed chunks, mid-stream
 errors and the bytes after the message must come out as they went in.
 
-Mutants this check was built against (each caught, see final report):
-  M1 LengthPrefixedBodyDecoder: `self._body[self.bytes_left:]` -> `[self.bytes_left + 1:]`
-     when the body and part of the trailer arrive in one read
-  M2 ChunkedBodyDecoder._state_accept_reading_chunk: `in_buf[self.bytes_left:]` ->
-     `in_buf[self.bytes_left + 1:]` (drops a byte only if chunk end + more arrive together)
-  M3 ChunkedBodyDecoder: `self.error_in_progress = []` dropped after a second look / ERR branch
-     not continuing with the rest of the buffer (`return` before the recursive call)
-  M4 ProtocolThreeDecoder.done(): `self.unused_data = self._get_in_buffer()` -> b""
-     (bytes after the message lost only if they arrive in the same read)
-  M5 _extract_length_prefixed_bytes: `if self._in_buffer_len < end_of_bytes` -> `<=`
-  M6 SmartServerRequestProtocolOne: trivial request `self.unused_data = self.in_buffer` dropped
-  M7 _decode_tuple: `req_line[:-1]` -> `req_line.strip()` (args ending in whitespace)
-  harmless: LengthPrefixed `_state_accept_reading_body` rewritten with local variables;
-     `in_buf.find(b"\\n")` -> `in_buf.index` guarded by `in`.
+Mutants this check was built against (scratch worktree, each caught by the oracle
+with a concrete input and by T2; H* stayed clean):
+  M1  LengthPrefixedBodyDecoder: `self._body[self.bytes_left :]` -> `[self.bytes_left + 1 :]`
+      (needs body end and part of the trailer in one read)
+  M2  ChunkedBodyDecoder._state_accept_reading_chunk: `in_buf[self.bytes_left :]` -> `+ 1`
+      (drops a byte only if the chunk end and more bytes arrive together)
+  M3  ChunkedBodyDecoder ERR branch returns without re-running the state on the rest of
+      the buffer (only visible when `ERR\n` and what follows arrive in the same read)
+  M4  ProtocolThreeDecoder.done(): `self.unused_data = b""` (bytes after the message lost
+      only if they arrive in the same read as the end byte)
+  M5  _extract_length_prefixed_bytes: `<` -> `<=` (one byte too many demanded)
+  M6  SmartServerRequestProtocolOne: trivial request no longer keeps `unused_data`
+  M7  _decode_tuple: `req_line[:-1]` -> `req_line.strip()` (last arg ending in a blank)
+  M8  _send_chunks: hex length -> decimal length (chunks of >= 10 bytes)
+  M9  LengthPrefixed trailer: `unused_data = self._get_in_buffer()` instead of the rest of
+      the trailer buffer
+  M10 ConventionalRequestHandler.bytes_part_received drops every body part after the first
+  M11 LengthPrefixed: `if self.bytes_left != 0` -> `< -1` (exactly one trailer byte with the body)
+  H1  `_state_accept_reading_body` rewritten with locals; H2 `find` -> `in` + `index`.
 """
 import io
 import struct
@@ -167,16 +172,20 @@ def run_lp(segs, mask):
         except ValueError:
             out.append("E:ValueError")
             break
-        tag = state_name(d)
-        left = d.bytes_left
-        if m == "1":
-            got = d.read_pending_data()
-            body += got
-            dr = hexb(got)
-        else:
-            dr = "~"
-        out.append("/".join([tag, "~" if left is None else str(left), dr,
-                             "T" if d.finished_reading else "F", hexb(d.unused_data), str(d.next_read_size())]))
+        try:
+            tag = state_name(d)
+            left = d.bytes_left
+            if m == "1":
+                got = d.read_pending_data()
+                body += got
+                dr = hexb(got)
+            else:
+                dr = "~"
+            out.append("/".join([tag, "~" if left is None else str(left), dr,
+                                 "T" if d.finished_reading else "F", hexb(d.unused_data), str(d.next_read_size())]))
+        except Exception as e:  # the real code blew up where the model has an answer
+            out.append("E:Crash:%s" % type(e).__name__)
+            break
     return ";".join(out), d, body
 
 
@@ -199,11 +208,15 @@ def run_ck(segs, drains):
         except Exception as e:
             out.append("E:BadHeader" if "Bad chunked body header" in str(e) else "E:Other:" + type(e).__name__)
             break
-        if m == "1":
-            seen.extend(iter(d.read_next_chunk, None))
-        allc = seen + list(d.chunks)
-        out.append("/".join([state_name(d), ",".join(show_chunk(c) for c in allc) or "[]",
-                             "T" if d.finished_reading else "F", hexb(d.unused_data), str(d.next_read_size())]))
+        try:
+            if m == "1":
+                seen.extend(iter(d.read_next_chunk, None))
+            allc = seen + list(d.chunks)
+            out.append("/".join([state_name(d), ",".join(show_chunk(c) for c in allc) or "[]",
+                                 "T" if d.finished_reading else "F", hexb(d.unused_data), str(d.next_read_size())]))
+        except Exception as e:
+            out.append("E:Crash:%s" % type(e).__name__)
+            break
     seen.extend(iter(d.read_next_chunk, None))
     return ";".join(out), d, seen
 
@@ -252,12 +265,16 @@ def run_v3(marker, segs):
     d = _proto().ProtocolThreeDecoder(h, expect_version_marker=marker)
     out = []
     for seg in segs:
-        d.accept_bytes(seg)
-        if h.err is not None:
-            out.append(v3_err(h.err))
+        try:
+            d.accept_bytes(seg)
+            if h.err is not None:
+                out.append(v3_err(h.err))
+                break
+            out.append("/".join([state_name(d), str(len(h.evs)), "T" if state_name(d) == "reading_unused" else "F",
+                                 hexb(d.unused_data), str(d.next_read_size())]))
+        except Exception as e:
+            out.append("E:Crash:%s" % type(e).__name__)
             break
-        out.append("/".join([state_name(d), str(len(h.evs)), "T" if state_name(d) == "reading_unused" else "F",
-                             hexb(d.unused_data), str(d.next_read_size())]))
     return ";".join(out) + " " + ("+".join(h.evs) or "[]"), d, h
 
 
@@ -346,8 +363,15 @@ def run_req(w, segs):
         except ValueError:
             out.append("E:ValueError")
             break
-        tag = "done" if p._finished else ("body" if p._has_dispatched else "line")
-        out.append("/".join([tag, "T" if p._finished else "F", hexb(p.unused_data), str(p.next_read_size())]))
+        except Exception as e:
+            out.append("E:Crash:%s" % type(e).__name__)
+            break
+        try:
+            tag = "done" if p._finished else ("body" if p._has_dispatched else "line")
+            out.append("/".join([tag, "T" if p._finished else "F", hexb(p.unused_data), str(p.next_read_size())]))
+        except Exception as e:
+            out.append("E:Crash:%s" % type(e).__name__)
+            break
     if p._finished and LOG:
         ev = [e for e in LOG if e[0] in ("body", "nobody")][-1]
         args = [b"C29.b" if ev[0] == "body" else b"C29.n"] + list(ev[1])
